@@ -121,7 +121,9 @@ func discharge(o *Obligation, dir string, timeout int, wantModel bool) {
 		r0, dt0, _ := runSolver(solvers[0], 5, fs)
 		if r0 == "unsat" {
 			o.Status, o.Solver, o.Time = "proved", "z3-new(skeleton)", dt0
-			os.Remove(fs)
+			if os.Getenv("GOVC_KEEP") == "" {
+				os.Remove(fs)
+			}
 			return
 		}
 		o.Time += dt0
